@@ -13,7 +13,7 @@ LEVEL = "proof"
 READY = True
 SYSTEMS = [c16_dqueue, c16_shcounter, c16_loadbalancer, c16_gcounter, c16_proxy, c16_shopcart]
 # walks per system: quick, thorough
-BUDGET = {"dqueue": (40, 2500), "shcounter": (20, 800), "loadbalancer": (30, 2000), "gcounter": (30, 1500), "proxy": (30, 1500), "shopcart": (25, 1200)}
+BUDGET = {"dqueue": (20, 2500), "shcounter": (10, 800), "loadbalancer": (16, 2000), "gcounter": (14, 1500), "proxy": (16, 1500), "shopcart": (12, 1200)}
 
 TRUSTED_BASE = [
     "Coq 8.16.1 kernel (coqc, full .vo build); vm_compute used in the non-vacuity Examples and in the correspondence evaluation",
@@ -113,8 +113,8 @@ def run(ctx):
             body = ("From PGV Require Import %s.\nDefinition walks : list walk :=\n [" % m.COQ_MODULE +
                     ";\n ".join(a["coq"] for (a, _) in part) + "].\n"
                     "Definition M := Eval vm_compute in mismatches_from 0 walks.\nPrint M.\n")
-            return vlib.coq_eval("C16_%s_%d" % (m.NAME, s), body)
-        with ThreadPoolExecutor(max_workers=3) as ex:
+            return vlib.coq_eval("C16_%s_%d" % (m.NAME, s), body, timeout=420)
+        with ThreadPoolExecutor(max_workers=4) as ex:
             results = list(ex.map(eval_shard, jobs))
         detailed = 0
         for (m, s, part), (rc, out, err) in zip(jobs, results):
@@ -160,6 +160,6 @@ MANIFEST = {
              "assertion freedom open (oracle only). nestedcrdtimpl, replicatedkv and the *.gotests programs: NOT covered yet. Tie: the generated archetypes "
              "run under the real Run loop one attempt at a time over spec-state resources (the specs' mapping macros); each model runs the same schedule in Coq; every "
              "post-state and outcome compared; implementation-side oracles per system on the Go observations."),
-    "level_note": ("Partial as stated per system; systems not modelled are not covered. Trusted: Coq kernel; hand-written models (differential tie: 175 quick / 9500 thorough "
+    "level_note": ("Partial as stated per system; systems not modelled are not covered. Trusted: Coq kernel; hand-written models (differential tie: 88 quick / 9500 thorough "
                    "walks + corpus); spec-state resources replacing the deployment resources; gcounter's merge process is a Go transcription of the spec process."),
 }
